@@ -2,7 +2,6 @@ use crate::define::Result;
 use crate::error::Error;
 use crate::value::Value;
 use once_cell::sync::OnceCell;
-use rust_decimal::prelude::FromPrimitive;
 use rust_decimal::Decimal;
 use std::collections::HashMap;
 use std::sync::{Arc, Mutex};
@@ -64,16 +63,8 @@ impl InfixOpManager {
                 SETTER,
                 RIGHT,
                 Arc::new(move |left, right| {
-                    let (mut a, b) = (left.decimal()?, right.decimal()?);
-                    match op {
-                        "+=" => a += b,
-                        "-=" => a -= b,
-                        "*=" => a *= b,
-                        "/=" => a /= b,
-                        "%=" => a %= b,
-                        _ => (),
-                    }
-                    Ok(Value::Number(a))
+                    let (a, b) = (left.decimal()?, right.decimal()?);
+                    Ok(Value::Number(checked_decimal_op(&op[..op.len() - 1], a, b)?))
                 }),
             );
         }
@@ -85,16 +76,8 @@ impl InfixOpManager {
                 SETTER,
                 RIGHT,
                 Arc::new(move |left, right| {
-                    let (mut a, b) = (left.integer()?, right.integer()?);
-                    match op {
-                        "<<=" => a <<= b,
-                        ">>=" => a >>= b,
-                        "&=" => a &= b,
-                        "^=" => a ^= b,
-                        "|=" => a |= b,
-                        _ => (),
-                    }
-                    Ok(Value::from(a))
+                    let (a, b) = (left.integer()?, right.integer()?);
+                    Ok(Value::from(checked_integer_op(&op[..op.len() - 1], a, b)?))
                 }),
             );
         }
@@ -163,16 +146,8 @@ impl InfixOpManager {
                 CALC,
                 LEFT,
                 Arc::new(move |left, right| {
-                    let (mut a, b) = (left.integer()?, right.integer()?);
-                    match op {
-                        "|" => a |= b,
-                        "^" => a ^= b,
-                        "&" => a &= b,
-                        "<<" => a <<= b,
-                        ">>" => a >>= b,
-                        _ => (),
-                    }
-                    Ok(Value::from(a))
+                    let (a, b) = (left.integer()?, right.integer()?);
+                    Ok(Value::from(checked_integer_op(op, a, b)?))
                 }),
             );
         }
@@ -184,16 +159,8 @@ impl InfixOpManager {
                 CALC,
                 LEFT,
                 Arc::new(move |left, right| {
-                    let (mut a, b) = (left.decimal()?, right.decimal()?);
-                    match op {
-                        "+" => a += b,
-                        "-" => a -= b,
-                        "*" => a *= b,
-                        "/" => a /= b,
-                        "%" => a %= b,
-                        _ => (),
-                    }
-                    Ok(Value::from(a))
+                    let (a, b) = (left.decimal()?, right.decimal()?);
+                    Ok(Value::from(checked_decimal_op(op, a, b)?))
                 }),
             );
         }
@@ -415,7 +382,7 @@ impl PostfixOpManager {
             "++",
             Arc::new(|param| {
                 let a = match param {
-                    Value::Number(a) => a + Decimal::from_i32(1).unwrap(),
+                    Value::Number(a) => a.checked_add(Decimal::ONE).ok_or(Error::Overflow)?,
                     _ => return Err(Error::ShouldBeNumber()),
                 };
                 Ok(Value::Number(a))
@@ -426,7 +393,7 @@ impl PostfixOpManager {
             "--",
             Arc::new(|param| {
                 let a = match param {
-                    Value::Number(a) => a - Decimal::from_i32(1).unwrap(),
+                    Value::Number(a) => a.checked_sub(Decimal::ONE).ok_or(Error::Overflow)?,
                     _ => return Err(Error::ShouldBeNumber()),
                 };
                 Ok(Value::Number(a))
@@ -455,6 +422,33 @@ impl PostfixOpManager {
     #[cfg(expression_engine_verif)]
     pub fn verif_names(&self) -> Vec<String> {
         self.store.lock().unwrap().keys().cloned().collect()
+    }
+}
+
+// Decimal's operators panic on overflow and on a zero divisor: use the checked forms
+fn checked_decimal_op(op: &str, a: Decimal, b: Decimal) -> Result<Decimal> {
+    let ans = match op {
+        "+" => a.checked_add(b),
+        "-" => a.checked_sub(b),
+        "*" => a.checked_mul(b),
+        "/" | "%" if b.is_zero() => return Err(Error::DivideByZero),
+        "/" => a.checked_div(b),
+        "%" => a.checked_rem(b),
+        _ => Some(a),
+    };
+    ans.ok_or(Error::Overflow)
+}
+
+// i64 shifts panic (debug) or mask the count (release) outside 0..=63
+fn checked_integer_op(op: &str, a: i64, b: i64) -> Result<i64> {
+    match op {
+        "|" => Ok(a | b),
+        "^" => Ok(a ^ b),
+        "&" => Ok(a & b),
+        "<<" | ">>" if b < 0 || b > 63 => Err(Error::InvalidShiftCount),
+        "<<" => Ok(a << b),
+        ">>" => Ok(a >> b),
+        _ => Ok(a),
     }
 }
 
